@@ -83,11 +83,34 @@ pub fn outcome_sig(p: &Prog, dedup: bool) -> String {
                 Ok(r) => format!("{:016x}", crate::util::fnv(format!("{r:?}").as_bytes())),
                 Err(_) => "conversion-panicked".to_string(),
             };
-            format!("ok:{}in/{}gates/{}out:{:016x}/register:{reg}", c.input_gates.len(), c.gates.len(), c.output_gates.len(), h)
+            // ... and so has the Bristol export (the compiler's third output format)
+            let bristol = bristol_sig(c);
+            format!("ok:{}in/{}gates/{}out:{:016x}/register:{reg}/bristol:{bristol}", c.input_gates.len(), c.gates.len(), c.output_gates.len(), h)
         }
         CompileOutcome::Rejected(kind, _msg) => format!("rejected:{kind}"),
         CompileOutcome::Crashed(m) => format!("crashed:{}", crate::util::panic_signature(&m)).replace(' ', "_"),
     }
+}
+
+/// Hash of the Bristol fashion text that the circuit is exported to (or why there is none).
+fn bristol_sig(c: &garble_lang::circuit::Circuit) -> String {
+    static NEXT: std::sync::atomic::AtomicU64 = std::sync::atomic::AtomicU64::new(0);
+    if c.gates.len() > 200_000 {
+        return "skipped-large".into();
+    }
+    let dir = crate::util::verif_dir().join(".work").join(format!("c06-{}", std::process::id()));
+    let _ = std::fs::create_dir_all(&dir);
+    let path = dir.join(format!("{}.txt", NEXT.fetch_add(1, std::sync::atomic::Ordering::Relaxed)));
+    let r = match crate::util::catch(|| c.format_as_bristol(&path)) {
+        Ok(Ok(())) => match std::fs::read(&path) {
+            Ok(text) => format!("{:016x}", crate::util::fnv(&text)),
+            Err(_) => "harness-could-not-read-the-export".to_string(),
+        },
+        Ok(Err(e)) => format!("refused:{e:?}").replace(' ', "_"),
+        Err(_) => "export-panicked".to_string(),
+    };
+    let _ = std::fs::remove_file(&path);
+    r
 }
 
 fn canary_order() -> u64 {
@@ -236,6 +259,19 @@ fn crafted_programs() -> Vec<Prog> {
     {
         v.push(Prog { origin: format!("crafted-several-assignments-in-one-operand-{n}"), src: src.to_string(), consts: vec![] });
     }
+    // results that hold the same computed values several times: the exporter de-aliases repeated
+    // output wires, which must not happen in the hash order of a map of wires
+    for (n, src) in [
+        "pub fn main(a: u8, b: u8) -> [u8; 4] {\n    let s = a + b;\n    let t = a ^ b;\n    [s, t, s, t]\n}\n",
+        "pub fn main(a: bool, b: bool, c: bool) -> (bool, bool, bool, bool, bool, bool) {\n    let s = a & b;\n    let t = b ^ c;\n    let u = !(a | c);\n    (s, t, u, t, s, u)\n}\n",
+        "pub fn main(a: u16, b: u16) -> ([u16; 2], (u16, u16), u16) {\n    let s = a * b;\n    let t = a - b;\n    let u = s / (t | 1u16);\n    ([u, s], (t, u), s)\n}\n",
+        "struct P { x: u8, y: u8 }\npub fn main(a: u8, b: u8) -> [P; 3] {\n    let p = P { x: a & b, y: a | b };\n    let q = P { x: p.y, y: p.x };\n    [p, q, P { x: a ^ b, y: a ^ b }]\n}\n",
+    ]
+    .iter()
+    .enumerate()
+    {
+        v.push(Prog { origin: format!("crafted-repeated-output-values-{n}"), src: src.to_string(), consts: vec![] });
+    }
     // programs that must be refused whatever the order in which the checker visits the functions
     for (n, src) in [
         "pub fn offset() -> u8 { 3u8 }\npub fn main(x: u8) -> u8 { x + offset() }\n",
@@ -377,7 +413,12 @@ pub fn worker(args: &[String]) -> i32 {
             }
         }
     }
+    remove_work_dir();
     0
+}
+
+fn remove_work_dir() {
+    let _ = std::fs::remove_dir_all(crate::util::verif_dir().join(".work").join(format!("c06-{}", std::process::id())));
 }
 
 pub fn run(ctx: &Ctx) -> i32 {
@@ -520,7 +561,7 @@ pub fn run(ctx: &Ctx) -> i32 {
     let mut cov = Map::new();
     cov.insert("evaluations".into(), json!(compilations));
     cov.insert("distinct_nontrivial".into(), json!(nontrivial));
-    cov.insert("rule".into(), json!("a case is (program, constants, dedup setting); non-trivial = it compiles to a circuit; each case is compiled repeatedly in this process and in fresh worker processes and all structural hashes (party sizes, gates in order, outputs) must coincide"));
+    cov.insert("rule".into(), json!("a case is (program, constants, dedup setting); non-trivial = it compiles to a circuit; each case is compiled repeatedly in this process and in fresh worker processes and all structural hashes (party sizes, gates in order, outputs; the register form; the Bristol fashion export) must coincide"));
     cov.insert("programs".into(), json!(progs.len()));
     cov.insert("compilations".into(), json!(compilations));
     cov.insert("fresh_processes".into(), json!(processes_ok));
@@ -535,5 +576,6 @@ pub fn run(ctx: &Ctx) -> i32 {
     if processes_ok == 0 {
         ctx.inconclusive("no worker process completed");
     }
+    remove_work_dir();
     ctx.finish(cov, vec!["hash seeds are sampled (fresh RandomState keys per HashMap and per process), not controlled".into()], 50)
 }
